@@ -275,6 +275,11 @@ def outs_equal(a, b):
             ly, hy = y.split('/')[0].split(':', 1)
             if lx != ly:
                 return False
+            # the C-side dump of a terminated string carries the byte AT the length ('/00'; '/xx' = not applicable): the abstract string is
+            # NUL-terminated by definition, so any other byte there is a difference (a terminator that was not written)
+            for side in (x, y):
+                if '/' in side and side.split('/', 1)[1] not in ('00', 'xx', ''):
+                    return False
             if hx == 'NULL' or hy == 'NULL':
                 if lx != '0':
                     return False
